@@ -84,7 +84,11 @@ type mStep struct {
 }
 
 type mCase struct {
-	N     int     `json:"n"`
+	N int `json:"n"`
+	// Nest = k >= 2 (and k < n): the first k children are wrapped in a merge handler of their own,
+	// NewMergeHandler(NewMergeHandler(c0..c(k-1)), ck, ...): judged as the flat handler over the n children is
+	// (first rejecting child in the order c0..c(n-1), maximum count, one reply when the last child has answered)
+	Nest  int     `json:"nest,omitempty"`
 	Sess  int     `json:"sessions,omitempty"` // sessions of the one handler value; 0 and 1: a single session
 	Steps []mStep `json:"steps"`
 	Fail  string  `json:"fail,omitempty"` // panic / hang / protocol failure of the run, "" when clean
@@ -226,6 +230,9 @@ func runMerge(c *mCase) {
 			children[i].ports[k] = scriptPort{cmd: make(chan []mocrelay.ServerMsg), got: make(chan mocrelay.ClientMsg)}
 		}
 		hs[i] = children[i]
+	}
+	if c.Nest >= 2 && c.Nest < c.N {
+		hs = append([]mocrelay.Handler{mocrelay.NewMergeHandler(hs[:c.Nest]...)}, hs[c.Nest:]...)
 	}
 	h := mocrelay.NewMergeHandler(hs...) // panics for fewer than two handlers: recorded above
 
